@@ -398,7 +398,8 @@ def require_clean(res, what):
 # ---------------------------------------------------------------- findings / evidence / verdicts
 
 def load_findings():
-    p = os.path.join(ROOT, "known_findings.json")
+    # (VERIF_FINDINGS: another findings file - used once, with an empty 'open' list, to re-derive the list of shapes)
+    p = os.environ.get("VERIF_FINDINGS") or os.path.join(ROOT, "known_findings.json")
     if not os.path.exists(p):
         return {"open": [], "fixed": []}
     return json.load(open(p))
